@@ -9,6 +9,7 @@ import (
 	"strconv"
 	"strings"
 	"sync"
+	"sync/atomic"
 	"time"
 
 	"github.com/Shopify/sarama"
@@ -42,6 +43,12 @@ func (r *reporter) Errorf(f string, a ...interface{}) {
 	r.mu.Lock()
 	r.logs = append(r.logs, fmt.Sprintf(f, a...))
 	r.mu.Unlock()
+}
+
+func (r *reporter) snapshot() []string {
+	r.mu.Lock()
+	defer r.mu.Unlock()
+	return append([]string(nil), r.logs...)
 }
 
 func classify(s string) string {
@@ -163,6 +170,12 @@ type checkLog struct {
 	live  map[int64]*sarama.ProducerMessage
 }
 
+func (l *checkLog) snapshot() [][2]int64 {
+	l.mu.Lock()
+	defer l.mu.Unlock()
+	return append([][2]int64(nil), l.Calls...)
+}
+
 func newCheckLog() *checkLog { return &checkLog{live: map[int64]*sarama.ProducerMessage{}} }
 
 func (l *checkLog) message(m msg) *sarama.ProducerMessage {
@@ -240,7 +253,7 @@ func setPartitions(tc *mocks.TopicConfig, def int32, over map[string]int32) {
 
 // hangs counts the scripts that blocked; after two of them for one mock the remaining scripts of that mock are
 // skipped (a mock that blocks on everything would otherwise cost 5 s per script).
-var hangs int
+var hangs int32
 
 // watchdog runs f and gives up after a few seconds: nothing the harness does may block.
 func watchdog(f func()) bool {
@@ -253,7 +266,7 @@ func watchdog(f func()) bool {
 	case <-done:
 		return true
 	case <-time.After(5 * time.Second):
-		hangs++
+		atomic.AddInt32(&hangs, 1)
 		return false
 	}
 }
